@@ -26,14 +26,18 @@ type Config struct {
 	Fields map[string]string // tracked field -> constant (exact string) or Top
 	Atoms  map[string]bool   // named guard atoms currently decided (dropped when a field they read is written)
 	Hist   map[string]bool   // every atom decided on this path (first decision), kept for labelling the result
+	alias  map[string]ssa.Value // tracked field -> the (unresolved) SSA value last stored into it
 	Acts   map[string]bool   // action labels executed
 	locals map[ssa.Value]string
 }
 
 func (c *Config) clone() *Config {
-	n := &Config{Fields: map[string]string{}, Atoms: map[string]bool{}, Hist: map[string]bool{}, Acts: map[string]bool{}, locals: map[ssa.Value]string{}}
+	n := &Config{Fields: map[string]string{}, Atoms: map[string]bool{}, Hist: map[string]bool{}, Acts: map[string]bool{}, locals: map[ssa.Value]string{}, alias: map[string]ssa.Value{}}
 	for k, v := range c.Fields {
 		n.Fields[k] = v
+	}
+	for k, v := range c.alias {
+		n.alias[k] = v
 	}
 	for k, v := range c.Hist {
 		n.Hist[k] = v
@@ -232,7 +236,7 @@ func (s *Spec) Run(entry *ssa.Function, init map[string]string) []*Config {
 		s.memo = map[string][]*Config{}
 		s.busy = map[string]bool{}
 	}
-	c := &Config{Fields: map[string]string{}, Atoms: map[string]bool{}, Hist: map[string]bool{}, Acts: map[string]bool{}, locals: map[ssa.Value]string{}}
+	c := &Config{Fields: map[string]string{}, Atoms: map[string]bool{}, Hist: map[string]bool{}, Acts: map[string]bool{}, locals: map[ssa.Value]string{}, alias: map[string]ssa.Value{}}
 	for k, v := range init {
 		c.Fields[k] = v
 	}
@@ -334,6 +338,7 @@ func (s *Spec) summary(f *ssa.Function, in *Config, params map[*ssa.Parameter]st
 					o.Fields["$ret"] = s.resolve(cc, t.Results[0])
 				}
 				o.locals = map[ssa.Value]string{}
+				o.alias = map[string]ssa.Value{}
 				outs[o.Key()] = o
 			case *ssa.If:
 				tb, fb := it.b.Succs[0], it.b.Succs[1]
@@ -428,6 +433,13 @@ func (s *Spec) refine(c *Config, cond ssa.Value) (t, f *Config) {
 			}
 		}
 	}
+	// a bare boolean that is a tracked φ (or the value a tracked field was last stored from): pin it on both sides
+	if set := s.assigner(c, cond); set != nil && s.feedsTrackedField(c, cond) {
+		ct, cf := c.clone(), c.clone()
+		set(ct, "true")
+		set(cf, "false")
+		return swap(ct, cf)
+	}
 	if s.Atom != nil {
 		if name, _, ok := s.Atom(cond); ok {
 			if v, known := c.Atoms[name]; known {
@@ -449,6 +461,28 @@ func (s *Spec) refine(c *Config, cond ssa.Value) (t, f *Config) {
 	return c, c
 }
 
+// feedsTrackedField: the boolean value is what a tracked field was (or will be) stored from.
+func (s *Spec) feedsTrackedField(c *Config, v ssa.Value) bool {
+	if len(s.Fields) == 0 {
+		return false
+	}
+	for _, src := range c.alias {
+		if src == v {
+			return true
+		}
+	}
+	if refs := v.Referrers(); refs != nil {
+		for _, r := range *refs {
+			if st, ok := r.(*ssa.Store); ok && st.Val == v {
+				if _, tracked, _ := s.fieldOfAddr(st.Addr); tracked {
+					return true
+				}
+			}
+		}
+	}
+	return false
+}
+
 // assigner returns a setter when v denotes a tracked field load or a tracked φ (so that an equality test can pin it).
 func (s *Spec) assigner(c *Config, v ssa.Value) func(*Config, string) {
 	switch x := v.(type) {
@@ -460,7 +494,15 @@ func (s *Spec) assigner(c *Config, v ssa.Value) func(*Config, string) {
 		}
 	case *ssa.Phi:
 		if trackablePhi(x) {
-			return func(c *Config, k string) { c.locals[x] = k }
+			return func(c *Config, k string) {
+				c.locals[x] = k
+				for f, src := range c.alias {
+					if src == ssa.Value(x) {
+						c.Fields[f] = k
+						delete(c.alias, f)
+					}
+				}
+			}
 		}
 	case *ssa.ChangeType:
 		return s.assigner(c, x.X)
@@ -514,6 +556,11 @@ func (s *Spec) step(in ssa.Instruction, c *Config) []*Config {
 		if tracked {
 			c.Fields[name] = s.resolve(c, x.Val)
 			c.Acts["set:"+name] = true
+			if c.Fields[name] == Top {
+				c.alias[name] = x.Val
+			} else {
+				delete(c.alias, name)
+			}
 		}
 		s.invalidate(c, name)
 		return []*Config{c}
